@@ -26,7 +26,15 @@ ASSUMPTIONS = [
 
 # fields through which a recursive descent is bounded by the parser's bracket-nesting limit
 BRACKET_FIELDS = {"elts"}
-RECURSIVE_STDLIB = {"ast.unparse": "ast.NodeVisitor based, several Python frames per tree level"}
+RECURSIVE_STDLIB = {
+    "ast.unparse": "ast.NodeVisitor based, several Python frames per tree level",
+    "copy.deepcopy": "recursive, about four Python frames per level of the copied structure",
+    "ast.dump": "recursive on the depth of the tree",
+    "ast.fix_missing_locations": "recursive on the depth of the tree",
+    "ast.literal_eval": "recursive on the depth of the tree",
+    "pickle.dumps": "recursive on the depth of the object graph",
+    "json.dumps": "recursive on the depth of the structure",
+}
 
 
 def _descent_fields(fi, call, seen=None):
